@@ -349,6 +349,8 @@ func (c *Context) Quo(d, x, y *Decimal) (Condition, error) {
 	// so, we determine whether the remainder was more or less than half of the
 	// divisor and round accordingly.
 	nd := NumDigits(&d.Coeff)
+	// diff is incremented by roundAddOne if rounding up carries into a new digit.
+	var diff int64
 	if rem.Sign() != 0 {
 		// Use the adjusted exponent to determine if we are Subnormal.
 		// If so, don't round. This computation of adj and the check
@@ -359,7 +361,7 @@ func (c *Context) Quo(d, x, y *Decimal) (Condition, error) {
 			rem.Mul(&rem, bigTwo)
 			half := rem.Cmp(&divisor)
 			if c.Rounding.ShouldAddOne(&d.Coeff, d.Negative, half) {
-				d.Coeff.Add(&d.Coeff, bigOne)
+				roundAddOne(&d.Coeff, &diff)
 				// The coefficient changed, so recompute num digits in
 				// setExponent.
 				nd = unknownNumDigits
@@ -367,7 +369,7 @@ func (c *Context) Quo(d, x, y *Decimal) (Condition, error) {
 		}
 	}
 
-	res |= d.setExponent(c, nd, res, shift, -adjCoeffs, -adjExp10)
+	res |= d.setExponent(c, nd, res, shift, -adjCoeffs, -adjExp10+diff)
 	return c.goError(res)
 }
 
